@@ -527,16 +527,18 @@ def _set_target(h, g):
     h.oblige("payload layout", b is not None)
     if b is None:
         return
+    # obligations about rounding are stated over exact values (natively: the rationals the floats are)
+    t, lo, hi = h.exact(t), h.exact(lo), h.exact(hi)
     if g == 4:
         f = dict(ac=b[0] % 64, power=b[0] // 64, mode=b[1] // 16, fan=b[1] % 16)
         h.oblige("set-point control = 01 set value", (b[2] // 64) == 1)
-        sp = b[2] % 64
-        res_half = 0.5
+        sp = h.exact(b[2] % 64)
+        res_half = h.exact(1) / 2
     else:
         f = dict(ac=b[0] % 16, power=b[0] // 16, mode=b[1] // 16, fan=b[1] % 16)
         h.oblige("set-point control byte = 0x40 change setpoint", b[2] == 0x40)
-        sp = (b[3] + 100) / 10
-        res_half = 0.05
+        sp = (h.exact(b[3]) + 100) / 10
+        res_half = h.exact(1) / 20
     h.oblige("addresses this AC", f["ac"] == E.number)
     h.oblige("power: keep", _keep_power(g, f["power"]))
     h.oblige("mode: keep", _keep_mode(g, f["mode"]))
